@@ -23,6 +23,32 @@ def configs(tier):
         ('documents: root all 2docs', dict(family='root_level', fam_kw=dict(docs=2, slots=2, attrs=2, text=True, leaf_form=False, root_form=False, pool=3))),
     ]
 
+def native_wide_probe(c):
+    """native only (outside the solver-decided bounds, which have at most 3-4 children per element): one element with 12 distinct children and 12 distinct
+    attributes, shuffled by VERIF_SEED; unsorted output must follow the document, sorted output the XML names"""
+    import random
+    from rsym.outreader import read_output
+    rng = random.Random(c.seed)
+    kids = ['k%02d' % i for i in range(12)]; attrs = ['a%02d' % i for i in range(12)]
+    rng.shuffle(kids); rng.shuffle(attrs)
+    doc = '<r %s>%s</r>' % (' '.join('%s="v"' % a for a in attrs), ''.join('<%s/>' % k for k in kids))
+    nat = c.replay.ask({'op': 'render', 'docs': [doc], 'options': [{'preset': 'quick_xml_de'}, {'preset': 'quick_xml_de', 'sort': 'XmlName'}]})
+    try:
+        su = read_output(nat['outputs'][0]); ss = read_output(nat['outputs'][1])
+        def split(st):
+            a = [f['rename'][1:] for f in st['fields'] if f['rename'] and f['rename'].startswith('@')]
+            k = [f['ident'] for f in st['fields'] if not (f['rename'] and f['rename'].startswith('@'))]
+            return a, k
+        ua, uk = split(su[0]); sa, sk = split(ss[0])
+        problems = []
+        if ua != attrs or uk != kids: problems.append('unsorted: fields do not follow the document')
+        if [s['name'] for s in su[1:]] != [k.capitalize() for k in kids]: problems.append('unsorted: struct definitions do not follow the document')
+        if sa != sorted(attrs) or sk != sorted(kids): problems.append('sorted: fields are not ordered by XML name')
+    except Exception as e:
+        problems = ['could not read the output: %r' % (e,)]
+    c.extra['native_validations'] = c.extra.get('native_validations', 0) + 1
+    if problems: c.add_violation('native probe with 12 children and 12 attributes: ' + '; '.join(problems), {'docs': [doc]}, {'outputs': nat.get('outputs')}, role='field order (wide element)')
+
 def main():
     c = Check('C09')
     c.assumptions = [
@@ -34,7 +60,8 @@ def main():
     if True:
         for label, kw in configs(c.tier):
             c.run(label, 'rsym.hr', 'FieldOrder', kw, time_cap=600 if c.tier == 'quick' else 900)
-    c.finish(bounds={'skeletons': [l for l, _ in configs(c.tier)]}, outside=['documents outside the skeletons', 'names outside the pool'],
+        native_wide_probe(c)
+    c.finish(bounds={'skeletons': [l for l, _ in configs(c.tier)]}, outside=['documents outside the skeletons (elements with more than 3-4 children are exercised only by one native probe with 12 children / 12 attributes)', 'names outside the pool'],
              trusted=['rsym + models', 'z3', 'output reader (checks/outreader)', 'tools/replay'],
              technique='symbolic execution of parser + renderer under both sort options; first-appearance order oracle as z3 formula, decided per path')
 if __name__ == '__main__':
